@@ -171,6 +171,7 @@ type fh struct {
 	nfault   int
 	ttlCalls []ttlCall         // WithTTL calls the builder performs (C06)
 	ctxs     []context.Context // caller contexts of the Gets, in get-end order
+	quiet    bool              // record nothing (C16: threads must not share harness state)
 }
 
 type ttlCall struct {
@@ -183,6 +184,10 @@ var keyNames = []string{"alpha-key-000", "bravo-key-111", "gamma-key-222"}
 const mutatedKey = "zzzzz-mut-999"
 
 func (h *fh) ev(e FEv) {
+	if h.quiet {
+		return
+	}
+
 	e.Seq = h.seq
 	h.seq++
 	e.Tid = vsched.Current()
@@ -264,6 +269,10 @@ type bwrap struct {
 }
 
 func (b *bwrap) Read(ctx context.Context, key []byte) (interface{}, error) {
+	if b.h.quiet {
+		return b.inner.Read(ctx, key)
+	}
+
 	b.h.nread++
 
 	if err := b.h.fault("read"); err != nil {
@@ -286,6 +295,10 @@ func (b *bwrap) Read(ctx context.Context, key []byte) (interface{}, error) {
 }
 
 func (b *bwrap) Write(ctx context.Context, key []byte, v interface{}) error {
+	if b.h.quiet {
+		return b.inner.Write(ctx, key, v)
+	}
+
 	b.h.nwrite++
 
 	if err := b.h.fault("write"); err != nil {
@@ -407,6 +420,10 @@ type bwrapOf struct {
 }
 
 func (b *bwrapOf) Read(ctx context.Context, key []byte) (Tok, error) {
+	if b.h.quiet {
+		return b.inner.Read(ctx, key)
+	}
+
 	b.h.nread++
 
 	if err := b.h.fault("read"); err != nil {
@@ -421,6 +438,10 @@ func (b *bwrapOf) Read(ctx context.Context, key []byte) (Tok, error) {
 }
 
 func (b *bwrapOf) Write(ctx context.Context, key []byte, v Tok) error {
+	if b.h.quiet {
+		return b.inner.Write(ctx, key, v)
+	}
+
 	b.h.nwrite++
 
 	if err := b.h.fault("write"); err != nil {
